@@ -338,7 +338,14 @@ func (ir *ifdReader) ParseString(t Tag) string {
 		return string(trimNULBuffer(ir.buffer.buf[:t.Size()]))
 	}
 	if t.IsType(tag.TypeASCII) || t.IsType(tag.TypeASCIINoNul) {
-		buf, _ := ir.readTagValue(t)
+		buf, err := ir.readTagValue(t)
+		if err != nil {
+			// The value could not be read (it lies behind the reader's position,
+			// beyond the block or beyond what the reader can look ahead). What a
+			// failed read leaves behind is not the value and is not consumed: a
+			// directory of such tags would turn the same bytes into one string each.
+			return ""
+		}
 		return string(trimNULBuffer(buf)) // Trim function
 	}
 	if ir.logLevelWarn() {
